@@ -21,7 +21,7 @@ META = {
     "bounds": {"quick": {"sub-project work": "1..4", "absence steps": "<= 2 in 0..5", "unit pairs": 8, "predecessor work": "0..2"}, "thorough": {"sub-project work": "1..6", "unit pairs": 12}},
     "outside": profiles.OUTSIDE + ["D = 0 (a zero-length sub-project still shows one WORKING step)", "non-dyadic non-integer unit ratios"],
 }
-REQUIRED_COVERS = {"any": ["absence-removed", "absence-kept", "ratio:gt1", "ratio:lt1", "refused", "waits-for-predecessor"]}
+REQUIRED_COVERS = {"any": ["absence-removed", "absence-kept", "ratio:gt1", "ratio:lt1", "refused", "waits-for-predecessor", "configured-twice"]}
 
 
 def _sub_spec(p):
@@ -61,6 +61,11 @@ def configure(p, ctx):
         n_abs = len(set(a for a in ctx.c(list(S.project.absence_time_list)) if 0 <= a < sub_time))
         st = BaseSubProjectTask(file_path=path, name="sub", ID="t1")
         before = (st.default_work_amount, st.unit_timedelta, st.work_amount_progress_of_unit_step_time, st.remove_absence_time_list, st.remaining_work_amount)
+        if p.get("twice") and int(S.project.status) == 1:
+            # configure once with the opposite setting first: the second call alone must decide
+            ok0, r0 = ctx.call(st.set_all_attributes_from_json, remove_absence_time_list=not remove)
+            ctx.cover("configured-twice")
+            before = (st.default_work_amount, st.unit_timedelta, st.work_amount_progress_of_unit_step_time, st.remove_absence_time_list, st.remaining_work_amount)
         with warnings.catch_warnings(record=True) as wlist:
             warnings.simplefilter("always")
             ok, ret = ctx.call(st.set_all_attributes_from_json, remove_absence_time_list=remove)
@@ -146,7 +151,7 @@ def configure(p, ctx):
 def obligations(tier, seed):
     thorough = tier == "thorough"
     obs = []
-    pairs = [(60, 60), (60, 120), (120, 60), (60, 180), (180, 60), (60, 240), (30, 60), (240, 60)]
+    pairs = [(60, 60), (60, 120), (120, 60), (60, 180), (180, 60), (60, 240), (30, 60), (240, 60), (43200, 86400), (43200, 129600)]
     if thorough:
         pairs += [(60, 30), (120, 180), (180, 120), (3600, 86400)]
     for (ss, ps) in pairs:
@@ -154,8 +159,9 @@ def obligations(tier, seed):
             for kind in (0, 1):
                 if kind == 1 and (ss, ps) not in ((60, 60), (60, 120), (120, 60)):
                     continue
-                obs.append({"name": "sub/%ds-in-%ds/remove=%d/kind=%d" % (ss, ps, remove, kind), "harness": "configure",
-                            "cube": {"sub_s": ss, "par_s": ps, "remove": remove, "kind": kind, "stage": "success"},
+                twice = (ss, ps) in ((60, 60), (60, 120))
+                obs.append({"name": "sub/%ds-in-%ds/remove=%d/kind=%d%s" % (ss, ps, remove, kind, "/twice" if twice else ""), "harness": "configure",
+                            "cube": {"sub_s": ss, "par_s": ps, "remove": remove, "kind": kind, "stage": "success", "twice": twice},
                             "params": [["sw", 1, 6 if thorough else 4], ["sa0", 0, 6], ["sa1", 0, 6], ["pw", 0, 2]], "pre": "sa0 < sa1",
                             "timeout": 600 if thorough else 150, "engine": "zsym"})
     for stage in ("never", "failure"):
